@@ -387,6 +387,49 @@ def process_level(ctx, res, histories, with_overlap=True):
         group.terminate(timeout=2.0)
 
 
+SLOW_TEARDOWN = ("import threading\n"
+                 "ns = {}\n"   # the class lives in its own namespace: the body's namespace is in no reference cycle and frees `keep` at once
+                 "exec('import time\\nclass Slow:\\n    def __del__(self):\\n        time.sleep(1.6)\\n', ns)\n"
+                 "keep = ns['Slow']()\n"
+                 "del ns\n"
+                 "channel.send(threading.current_thread() is threading.main_thread())\n")
+
+
+def slow_teardown_probe(ctx, res):
+    """known finding C14-teardown-exceeds-grace (C14_untimely_counterexample on the real worker): the channel of a body is
+    closed before its namespace is torn down and before `_executetask_complete` is set; a finaliser in the namespace that
+    runs longer than the receiver's 1 s wait makes the next, sequentially issued remote_exec fail with the deadlock text"""
+    execnet = ctx.execnet
+    gb = execnet.gateway_base
+    group = execnet.Group()
+    case = {"process_level": "slow-teardown", "finaliser_seconds": 1.6}
+    res.count(("process", "slow-teardown"))
+    res.stat("process_level_slow_teardown")
+    try:
+        gw = group.makegateway("popen//execmodel=main_thread_only")
+        ch = gw.remote_exec(SLOW_TEARDOWN)
+        ch.receive(10)
+        ch.waitclose(10)
+        t0 = time.monotonic()
+        ch2 = gw.remote_exec(PROC_BODY["ret"])
+        try:
+            ok = ch2.receive(10)
+            if ok is not True:
+                res.violations.append({"case": case, "finding": None, "what": "body after a slow tear-down did not run on the main thread"})
+        except gb.RemoteError as e:
+            dt = time.monotonic() - t0
+            if DEADLOCK_TEXT in str(e):
+                res.violations.append({"case": case, "finding": "C14-teardown-exceeds-grace",
+                                       "what": "remote_exec issued after the previous channel had closed was refused with the deadlock text after "
+                                               "%.2f s: the previous body's namespace was still being torn down (finaliser of 1.6 s)" % dt})
+            else:
+                res.violations.append({"case": case, "finding": None, "what": "remote_exec after a slow tear-down failed: %s" % str(e)[:120]})
+    except BaseException as e:  # noqa: BLE001
+        res.violations.append({"case": case, "finding": None, "what": "slow-teardown probe failed: %r" % (e,)})
+    finally:
+        group.terminate(timeout=3.0)
+
+
 PROC_HISTORIES = [["raise", "ret"], ["ret", "ret", "raise", "sysexit", "ret"], ["kbd", "ret"], ["sysexit", "raise", "ret"]]
 
 
@@ -398,7 +441,8 @@ def run(ctx):
     res.rule = RULE
     res.assumptions = ["Timely: the receiver's 1 s wait (Generated.gateWaitDeci = 10) does not expire while the main thread is between "
                        "the end of a body and _executetask_complete.set(); the harness realises it with virtual time "
-                       "(time-outs fire only when no thread can run); on the real popen gateway it holds by a margin of ~1 s",
+                       "(time-outs fire only when no thread can run); on the real popen gateway it holds by a margin of ~1 s and is "
+                       "violated by a body whose tear-down exceeds the second (known finding C14-teardown-exceeds-grace, probed on every run)",
                        "C14_main_thread / C14_one_at_a_time are theorems about the WorkerPool model of C09 (same correspondence)"]
     execnet = ctx.execnet
     col = Collector(res)
@@ -449,6 +493,8 @@ def run(ctx):
     else:
         thorough_parallel(ctx, res, col)
     col.check_model(ctx, ctx.budget(800, 8000, 2000))
+    # the timing assumption on the real worker (known finding when the tear-down exceeds the gate's wait)
+    slow_teardown_probe(ctx, res)
     res.extra["wall_explore_s"] = round(time.monotonic() - t_start, 1)
     return res
 
